@@ -68,10 +68,21 @@ KIND_DOC = {
 }
 
 
-def kinds_for(vtype, build, value=None):
+VIEW_LIST_KINDS = ['ct', 'cl', 'a', 'raw', 'sv', 'v', 'tup']     # argument kinds of view-level ops (besides the arrays)
+SECOND_ARRAY_KINDS = ['a', 'raw', 'd', 'cs_fb', 'fs_hb', 'ds_db', 'ls_hb', 'hs_db_col']
+
+
+def kinds_for(vtype, build, value=None, level='index', second=False):
     stl = BUILDS[build]['stl']
     if value is None and vtype != 'A':
         return ['none']
+    if vtype == 'A':
+        return list(SECOND_ARRAY_KINDS) if second else list(ARRAY_KINDS_STL) + list(ARRAY_KINDS_COL)
+    if level == 'view' and vtype in ('L', 'I'):
+        ks = list(VIEW_LIST_KINDS)
+        if len(value) == 0:
+            ks = [k for k in ks if k != 'raw']
+        return ks
     if vtype in ('L', 'I'):
         ks = list(LIST_KINDS_STL if stl else LIST_KINDS_NOSTL)
         if len(value) == 0:
@@ -85,9 +96,6 @@ def kinds_for(vtype, build, value=None):
         return ['ct', 'cl', 'rt']
     if vtype == 'b':
         return list(BOOL_KINDS)
-    if vtype == 'A':
-        return list(ARRAY_KINDS_STL) + list(ARRAY_KINDS_COL) if stl else \
-            [k for k in ARRAY_KINDS_STL + ARRAY_KINDS_COL]
     raise ValueError(vtype)
 
 
@@ -119,9 +127,42 @@ def cl_lit(v, salt, signed):
     return 'nm::clipped_size_t<%d>{%d}' % (hi, v)
 
 
-def decl_arg(name, vtype, value, kind, salt=0, cx=False):
+def nested_init(shape, start):
+    """brace initialiser of an int array of the given shape holding start, start+1, ... in row-major order"""
+    n = 1
+    for e in shape:
+        n *= e
+    flat = list(range(start, start + n))
+
+    def rec(sh, vals):
+        if len(sh) == 1:
+            return '{' + ','.join(str(v) for v in vals) + '}'
+        step = len(vals) // sh[0]
+        return '{' + ','.join(rec(sh[1:], vals[k * step:(k + 1) * step]) for k in range(sh[0])) + '}'
+    return rec(list(shape), flat)
+
+
+def decl_array(name, shape, kind, pos):
+    dims = ''.join('[%d]' % e for e in shape)
+    init = nested_init(shape, 1000 * pos)
+    if kind == 'raw':
+        return ['int %s%s = %s;' % (name, dims, init)]
+    col = kind.endswith('_col')
+    base = kind[:-4] if col else kind
+    tag = {'a': 'nested_arr', 'f': 'fixed', 'h': 'hybrid', 'd': 'dynamic'}.get(base, 'ndarray_' + base)
+    ls = ['int %s_raw%s = %s;' % (name, dims, init)]
+    if col:
+        ls.append('auto %s_row = nm::cast(%s_raw, na::kind::%s); auto %s = k9::to_col(%s_row);' % (name, name, tag, name, name))
+    else:
+        ls.append('auto %s = nm::cast(%s_raw, na::kind::%s);' % (name, name, tag))
+    return ls
+
+
+def decl_arg(name, vtype, value, kind, salt=0, cx=False, pos=0):
     """C++ declaration lines for one argument; the argument is then usable as `name`."""
     q = 'constexpr ' if cx else ''
+    if vtype == 'A':
+        return decl_array(name, value, kind, pos)
     if value is None and vtype != 'A':
         return ['%sauto %s = nm::None;' % (q, name)]
     if vtype in ('L', 'I'):
@@ -232,6 +273,26 @@ _op('shape_pad', [IX + 'pad.hpp'], [('shape', 'L'), ('pad_width', 'L')], 'ix::sh
     [[[2, 3], [0, 2, 1, 0]]], rep_bad=[[[2, 3], [0, 2, 1]]])
 
 
+VW = 'nmtools/array/view/'
+AR = 'nmtools/array/array/'
+_op('v_transpose', [VW + 'transpose.hpp'], [('x', 'A'), ('axes', 'I')], 'view::transpose(x,axes)',
+    [[[2, 3], [1, 0]], [[2, 3], None]], post='k9::norm_arr(r)', level='view')
+_op('v_reshape', [VW + 'reshape.hpp'], [('x', 'A'), ('newshape', 'I')], 'view::reshape(x,newshape)',
+    [[[2, 3], [3, 2]]], post='k9::norm_arr(r)', level='view')
+_op('v_tile', [VW + 'tile.hpp'], [('x', 'A'), ('reps', 'L')], 'view::tile(x,reps)',
+    [[[2, 3], [2, 1]]], post='k9::norm_arr(r)', level='view')
+_op('v_add', [VW + 'ufuncs/add.hpp'], [('x', 'A'), ('y', 'A')], 'view::add(x,y)',
+    [[[2, 3], [3]]], post='k9::norm_arr(r)', level='view')
+_op('v_sum', [VW + 'sum.hpp'], [('x', 'A'), ('axis', 'i')], 'view::sum(x,axis)',
+    [[[2, 3], 1]], post='k9::norm_arr(r)', level='view')
+_op('e_transpose', [AR + 'transpose.hpp'], [('x', 'A'), ('axes', 'I')], 'na::transpose(x,axes)',
+    [[[2, 3], [1, 0]]], post='k9::norm_arr(r)', level='view')
+_op('e_add', [AR + 'ufuncs/add.hpp'], [('x', 'A'), ('y', 'A')], 'na::add(x,y)',
+    [[[2, 3], [3]]], post='k9::norm_arr(r)', level='view')
+_op('e_tile', [VW + 'tile.hpp', 'nmtools/array/eval.hpp'], [('x', 'A'), ('reps', 'L')], 'na::eval(view::tile(x,reps))',
+    [[[2, 3], [2, 1]]], post='k9::norm_arr(r)', level='view')
+
+
 def sig(op, kinds, mode='rt'):
     """kind signature: what is pinned as supported / unsupported"""
     o = OPS[op]
@@ -287,7 +348,7 @@ def emit_case(c, fname, stub=False):
             fname, c.text(), 'compile-error:ct' if knows_at_compile_time(c) else 'compile-error')
     lines = ['static std::string %s() {   // %s' % (fname, c.text())]
     for j, ((an, vt), v, k) in enumerate(zip(o.args, c.vals, c.kinds)):
-        for l in decl_arg(an, vt, v, k, salt=c.salt + 5 * j, cx=cx):
+        for l in decl_arg(an, vt, v, k, salt=c.salt + 5 * j, cx=cx, pos=j):
             lines.append('    ' + l)
     lines.append('    %sauto r = %s;' % ('constexpr ' if cx else '', o.call))
     lines.append('    return %s;' % o.post)
@@ -303,6 +364,7 @@ def emit_tu(cases, build, stubs=()):
         for i in OPS[c.op].includes:
             if i not in incs:
                 incs.append(i)
+    need_arr = any(OPS[c.op].level == 'view' for c in cases)
     need_cast = any(k in ('f', 'h') for c in cases for k in c.kinds)
     need_boost = any(k in ('ba', 'bsv') for c in cases for k in c.kinds)
     out = ['// generated by harness/gen_kinds_c09.py (build %s) -- do not edit' % build]
@@ -313,7 +375,7 @@ def emit_tu(cases, build, stubs=()):
     if need_cast:
         out.append('#include "nmtools/array/ndarray.hpp"')
         out.append('#include "nmtools/utility/cast.hpp"')
-    out.append('#include "kinds_c09.hpp"')
+    out.append('#include "kinds_c09_arr.hpp"' if need_arr else '#include "kinds_c09.hpp"')
     out.append('#include "proto.hpp"')
     out.append('namespace nm = nmtools; namespace ix = nmtools::index; namespace na = nmtools::array; namespace view = nmtools::view;')
     out.append('using namespace nmtools::literals;')
@@ -353,9 +415,17 @@ def write_tu(name, cases, build, stubs=()):
 # kind assignments
 # ------------------------------------------------------------------------------------------------
 def all_assignments(op, vals, build):
+    return [tuple(x) for x in itertools.product(*kinds_per_arg(op, vals, build))]
+
+
+def kinds_per_arg(op, vals, build):
     o = OPS[op]
-    per = [kinds_for(vt, build, v) for (an, vt), v in zip(o.args, vals)]
-    return [tuple(x) for x in itertools.product(*per)]
+    per = []
+    seen_array = False
+    for (an, vt), v in zip(o.args, vals):
+        per.append(kinds_for(vt, build, v, level=o.level, second=(vt == 'A' and seen_array)))
+        seen_array |= vt == 'A'
+    return per
 
 
 def cx_ok(op, vals, kinds):
@@ -472,8 +542,9 @@ def pin_reps(op, reps, build, repo, tag):
             cs.append(KCase(op, vals, k, 'rt', salt=1))
             if cx_ok(op, vals, k):
                 cs.append(KCase(op, vals, k, 'cx', salt=1))
-        for j in range(0, len(cs), 400):     # big groups make the compiler slow: chunk
-            chunk = cs[j:j + 400]
+        step = 60 if OPS[op].level == 'view' else 400
+        for j in range(0, len(cs), step):     # big groups make the compiler slow: chunk
+            chunk = cs[j:j + step]
             ok, bad = probe(chunk, build, '%s_%s%d_%d' % (op, tag, ri, j), repo=repo)
             for c in chunk:
                 if c.key in bad:
